@@ -267,3 +267,78 @@ def run_iter_scenario(p, wd):
                     break
                 del left[hit]
     return {"fails": fails[:25], "checks": counter[0]}
+
+
+def run_point_scenario(p, wd):
+    """C19: pck[fsel](x,y,z) at the centre of an interior cell of the finest covering level returns the stored value."""
+    from amr_kitchen import PlotfileCooker
+    fails = []
+    counter = [0]
+    rng = random.Random(p["seed"])
+    nf = p["nf"]
+    names = [f"q{i}" for i in range(nf)]
+
+    def payload(lv, b, lo, hi, X, Y, Z, c):
+        r = np.random.default_rng(p["seed"] * 7919 + lv * 101 + b * 13 + c)
+        return 1.0 + c + r.uniform(0.0, 1.0, size=X.shape)
+    pf = gen.make_pf(ndims=3, names=names, n0=tuple(p.get("n0", (16, 16, 16))), geo_lo=tuple(p.get("geo_lo", (1., 2., 3.))),
+                     dx0=tuple(p.get("dx0", (0.1, 0.2, 0.4))), nlevels=p["nlevels"], nfiles=p["nfiles"],
+                     layout=p["layout"], seed=p["seed"], box=8, payload=payload)
+    path = os.path.join(wd, "plt")
+    gen.write_plotfile(path, pf)
+    pck = PlotfileCooker(path)
+    fsels = [0, nf - 1, names[0], list(range(nf)), [0], slice(None)]
+    if nf >= 3:
+        fsels.append([0, nf - 1])
+    # covered masks
+    def covered(lv, b):
+        lo, hi = pf.levels[lv][b]
+        m = np.zeros(tuple(h - l + 1 for l, h in zip(lo, hi)), dtype=bool)
+        if lv < pf.L:
+            for flo, fhi in pf.levels[lv + 1]:
+                clo = [max(l // 2, a) for l, a in zip(flo, lo)]
+                chi = [min(h // 2, c) for h, c in zip(fhi, hi)]
+                if all(x <= y for x, y in zip(clo, chi)):
+                    m[tuple(slice(x - a, y - a + 1) for x, y, a in zip(clo, chi, lo))] = True
+        return m
+    npts = p.get("npoints", 12)
+    tries = 0
+    while counter[0] < npts and tries < 2000:
+        tries += 1
+        lv = rng.randrange(pf.L + 1)
+        b = rng.randrange(pf.nboxes(lv))
+        lo, hi = pf.levels[lv][b]
+        shape = [h - l + 1 for l, h in zip(lo, hi)]
+        if min(shape) < 3:
+            continue
+        cell = [rng.randrange(1, s - 1) for s in shape]
+        if covered(lv, b)[tuple(cell)]:
+            continue
+        dx = pf.dx(lv)
+        pt = [pf.geo_lo[d] + (lo[d] + cell[d] + 0.5) * dx[d] for d in range(3)]
+        fsel = rng.choice(fsels)
+        comps, scalar = spec_fields(names, fsel)
+        what = f"pck[{desc(fsel)}]({pt[0]!r}, {pt[1]!r}, {pt[2]!r})  (level {lv} box {b} cell {cell})"
+        counter[0] += 1
+        try:
+            got = np.atleast_1d(np.asarray(pck[fsel](*pt), dtype=float)).ravel()
+        except Exception as e:      # noqa
+            fails.append({"what": "point query raised at an interior cell centre", "call": what,
+                          "detail": f"{type(e).__name__}: {str(e)[:120]}"})
+            continue
+        exp = np.array([pf.data[lv][b][tuple(cell) + (c,)] for c in comps])
+        if got.shape != exp.shape or not np.allclose(got, exp, rtol=1e-9, atol=1e-12):
+            fails.append({"what": "point query differs from the stored cell value", "call": what,
+                          "detail": f"{got} vs {exp}"})
+    # outside the domain: refused
+    for d in range(3):
+        pt = [pf.geo_lo[k] + 0.5 * (pf.geo_hi[k] - pf.geo_lo[k]) for k in range(3)]
+        pt[d] = pf.geo_hi[d] + 3.3 * pf.dx(0)[d]
+        counter[0] += 1
+        try:
+            r = pck[0](*pt)
+            fails.append({"what": "point outside the domain answered instead of refused", "call": f"pck[0]{tuple(pt)}",
+                          "detail": str(r)[:60]})
+        except Exception:
+            pass
+    return {"fails": fails[:20], "checks": counter[0]}
